@@ -159,7 +159,7 @@ pure conflicts(rn Bytes, name Bytes) Bool = len(rn) > len(name) && suffixof(name
 
 func getParentConflictingRecord(ctx, name, fragments) (r)
   pure
-  requires fragments == split(name, ".") && len(fragments) >= 2
+  requires fragments == split(name, ".")
   ensures [C12] len(r) == 0 ==> forall j Int {recAt(store, pprefix(name), j)} :: 0 <= j && j < cnt(store, pprefix(name)) ==> !conflicts(recAt(store, pprefix(name), j).Name, name)
   ensures [C12] len(r) != 0 ==> exists j Int :: 0 <= j && j < cnt(store, pprefix(name)) && conflicts(recAt(store, pprefix(name), j).Name, name) && r == recAt(store, pprefix(name), j).Name
   loop 0
